@@ -443,6 +443,12 @@ def r4_single_conversion(ctx):
         fitv = norm(expand(gb, sts["best_fitness"].value))
         ok = ok and "island.get_population().get_f()" in fitv
     ctx.check(ok, gb.qual, "best_parameters = problem.convert_to_parameters(best_decision)" if ok else "reported best parameters are not the conversion of the reported decisions", where=gb, node=sts.get("best_parameters", gb.node) if isinstance(sts, dict) else gb.node)
+    # the k best rows of every island are stacked POSITIONALLY: the per-island dataset carries no index
+    # on 'individual' (with one, xr.concat outer-joins the labels: more than k rows, NaN padding)
+    ipd = [v for s_, v in local_defs(gb, "island_population") if v is not None]
+    ok_ip = len(ipd) == 1 and isinstance(ipd[0], ast.Call) and call_name(ipd[0]).endswith("Dataset") and not ipd[0].args and not ipd[0].keywords
+    idx_calls = [c for c in calls_in(gb.node) if isinstance(c.func, ast.Attribute) and c.func.attr in ("assign_coords", "set_index", "set_coords") and any((k.arg == "individual") for k in c.keywords) and enclosing_loop(c) is not None]  # inside the island loop (the final relabelling after the concat is fine)
+    ctx.check(ok_ip and not idx_calls, gb.qual + "#positional", "per-island best rows are stacked positionally (no 'individual' index)" if ok_ip and not idx_calls else "the per-island dataset is indexed by 'individual': concatenating islands aligns by label instead of stacking the k best rows", where=gb, node=(idx_calls or ipd or [gb.node])[0])
     gbd = ctx.func(f"{FD}.get_bounds")
     rets = [r for r in returns_of(gbd) if r.value is not None]
     ok = len(rets) == 1 and norm(rets[0].value) == "(self._lower_boundaries, self._upper_boundaries)"
